@@ -150,6 +150,46 @@ def features(trace):
     return fs
 
 
+def run_impl(exe, cases, tmo, max_hangs=6):
+    """Runs the scenario driver over `cases` in parallel chunks.  The driver gives up on
+    its process when a scenario hangs (it prints `hang ...` and exits): the chunk then
+    continues in a fresh process; after `max_hangs` hangs the rest of the chunk is not run."""
+    import concurrent.futures as cf, subprocess
+    n = len(cases)
+    if n == 0:
+        return []
+    nsh = min(qv.NPROC, max(1, n // 40 + 1))
+    bounds = [(i * n // nsh, (i + 1) * n // nsh) for i in range(nsh)]
+
+    def one(lo_hi):
+        lo, hi = lo_hi
+        todo, res, hangs = cases[lo:hi], [], 0
+        while todo:
+            if hangs >= max_hangs:
+                res += ["skipped"] * len(todo)
+                break
+            try:
+                p = subprocess.run([exe], input="\n".join(todo) + "\n", stdout=subprocess.PIPE,
+                                   stderr=subprocess.DEVNULL, timeout=tmo, text=True)
+                lines = [l for l in p.stdout.split("\n") if l != ""]
+            except subprocess.TimeoutExpired as e:
+                out = e.stdout or ""
+                out = out.decode("utf-8", "replace") if isinstance(out, bytes) else out
+                lines = [l for l in out.split("\n") if l != ""][:-1] + ["timeout"]
+            lines = lines[:len(todo)]
+            if len(lines) < len(todo) and not (lines and lines[-1].startswith(("hang", "timeout"))):
+                lines.append("crash")
+            res += lines
+            todo = todo[len(lines):]
+            if lines and lines[-1].startswith(("hang", "timeout", "crash")):
+                hangs += 1
+        return res
+
+    with cf.ThreadPoolExecutor(max_workers=nsh) as ex:
+        parts = list(ex.map(one, bounds))
+    return [l for p in parts for l in p]
+
+
 def stage(tier, seed, replay):
     import random
     violations, broken, cov = [], [], {}
@@ -173,7 +213,7 @@ def stage(tier, seed, replay):
     else:
         cases = list(gen(random.Random(seed), tier))
     tmo = 150 if tier == "quick" else 3000
-    impl = qv.run_sharded(bins[IMPL_BIN], cases, tmo)
+    impl = run_impl(bins[IMPL_BIN], cases, tmo)
     # recorded traces of a replay file are re-validated as well (deterministic part)
     extra = [(c, r) for c, r in recorded.items() if r]
     cases_all = cases + [c for c, _ in extra]
@@ -184,6 +224,9 @@ def stage(tier, seed, replay):
     model = qv.run_sharded(exe_m, [f"{c} T {t}" for c, t in zip(cases_all, traces)], tmo)
     hist, nontrivial, n_events = {}, 0, 0
     for case, head, tr, m, raw in zip(cases_all, heads, traces, model, impl_all):
+        if head == "skipped":
+            hist["skipped (too many hangs in the shard)"] = hist.get("skipped (too many hangs in the shard)", 0) + 1
+            continue
         fs = features(tr)
         n_events += 0 if tr == "-" else tr.count(";") + 1
         for x in fs:
@@ -214,7 +257,8 @@ CHECK = {
     "property": "C29",
     "props": "Props/C29.v",
     "theorems": ["c29_inv_step", "c29_inv_reachable", "c29_exactly_once", "c29_await", "c29_reject", "c29_closed",
-                 "c29_no_underflow", "c29_await_refuted_prefix"],
+                 "c29_no_underflow", "c29_progress", "c29_measure", "c29_measure_wf", "c29_trace_sound",
+                 "c29_trace_safe", "c29_await_refuted_prefix"],
     "allowed_axioms": [],
     "extra_stage": stage,
     "rule": ("randomized scenarios on the real ThreadGroup/ThreadPool with hooks armed: 0-2 permanent workers, linger "
